@@ -1,5 +1,6 @@
 import FxVerif.Model.C08U
 import FxVerif.Model.C08Cache
+import FxVerif.Gen.C08c
 import FxVerif.Model.Util
 /-! line-protocol driver for the C08 model (unified, denomination / contract level).
 
@@ -15,6 +16,12 @@ open FxVerif FxVerif.Util FxVerif.Model.Ledger FxVerif.Model.Flows FxVerif.Model
 structure St where
   u : UState
   ext : List Nat        -- externally deployed (externally owned) contracts
+  styles : List (Nat × Style) := []   -- how a raw test token signals success / failure (default: FIP20)
+
+def St.styleOf (st : St) (ct : Nat) : Style :=
+  match st.styles.find? (fun p => p.1 == ct) with
+  | some p => p.2
+  | none => {}
 
 def idx0 : Idx := genesisIdx
 
@@ -29,7 +36,7 @@ def ledger0 : Ledger where
   supply := fun _ => 0
   owner := ownerFn []
 
-def st0 : St := ⟨{ idx := idx0, L := ledger0 }, []⟩
+def st0 : St := { u := { idx := idx0, L := ledger0 }, ext := [] }
 
 def nG : Nat := 8
 def nCt : Nat := 48
@@ -90,8 +97,9 @@ def mintTo (L : Ledger) (a : Asset) (x : Addr) (n : Nat) : Ledger :=
 def answer (st : St) (res : String) : St × String :=
   (st, res ++ " | " ++ showLedger st.u.L ++ " | " ++ showIdx st.u.idx ++ (if st.u.enable then "" else " off"))
 
+/-- the keeper-level transfers are read through the wrapper condition regenerated from x/evm/keeper/erc20.go -/
 def msg (st : St) (op : UOp) : St × String :=
-  match stepU st.u op with
+  match stepUA FxVerif.Gen.C08c.erc20Transfer_accepts st.styleOf st.u op with
   | .ok u' => answer { st with u := { u' with L := compact st.ext u'.L } } "ok"
   | .error e => answer st ("err:" ++ showErr e)
 
@@ -105,11 +113,21 @@ def step (st : St) (line : String) : St × String :=
     match nats [d, u, n] with
     | some [d, u, n] => answer { st with u := { st.u with L := compact st.ext (mintTo st.u.L (coinAsset d) (.user u) n) } } "ok"
     | _ => (st, "bad-op")
+  | ["deploys", ct, o, f] =>
+    -- a raw externally-owned test token: success signalled by `true` (0) / nothing (1); failure by revert (0) / `false`
+    -- (1) / nothing (2)
+    match nats [ct, o, f] with
+    | some [ct, o, f] =>
+      let ext := ct :: st.ext
+      let sty : Style := { ok := if o == 0 then .retTrue else .retNothing,
+                           fail := if f == 0 then .revert else if f == 1 then .retFalse else .retNothing }
+      answer { st with u := { st.u with L := compact ext st.u.L }, ext := ext, styles := (ct, sty) :: st.styles } "ok"
+    | _ => (st, "bad-op")
   | ["deploy", ct] =>
     match ct.toNat? with
     | some ct =>
       let ext := ct :: st.ext
-      answer { u := { st.u with L := compact ext st.u.L }, ext := ext } "ok"
+      answer { st with u := { st.u with L := compact ext st.u.L }, ext := ext } "ok"
     | none => (st, "bad-op")
   | ["funde", ct, u, n] =>
     match nats [ct, u, n] with
@@ -119,8 +137,11 @@ def step (st : St) (line : String) : St × String :=
     -- a direct `token.transfer(party, n)` by user `u` (not a message of the erc20 module)
     match nats [ct, u, p, n] with
     | some [ct, u, p, n] =>
-      -- FIP20 `_transfer` reverts on the zero address
-      if partyAddr p = zeroAddr then answer st "err:funds" else
+      -- the token refuses (zero address, insufficient balance) in its own style: a revert fails the call, a `false` /
+      -- empty return leaves the call successful with nothing moved
+      if partyAddr p = zeroAddr ∨ st.u.L.bal (.erc ct) (.user u) < n then
+        (if (st.styleOf ct).fail = .revert then answer st "err:funds" else answer st "ok")
+      else
       match runFlow [.send (.erc ct) (.user u) (partyAddr p) n] st.u.L with
       | .ok L => answer { st with u := { st.u with L := compact st.ext L } } "ok"
       | .error e => answer st ("err:" ++ showErr e)
